@@ -257,18 +257,36 @@ def ow2(ctx, R):
             if any(isinstance(x, ast.Call) and call_name(x) in ("set", "frozenset", "sorted") for x in ast.walk(n.value)) or \
                     any(isinstance(x, (ast.Set, ast.SetComp)) for x in ast.walk(n.value)):
                 unordered = True
-    good = has_len and zips and pairwise and not unordered
-    R.check(good, "tdms_segment.ObjectListKey.__eq__::ordered comparison", eq.where(),
-            "keys are equal only for lists of equal length with pairwise equal paths in the same order",
-            "cache key equality does not compare the object paths pairwise in list order (length check=%s, zip=%s, path==path=%s, "
-            "order-insensitive container=%s): segments with the same objects in a different order would share one path->position index" % (
-                bool(has_len), bool(zips), pairwise, unordered))
+    # all(map(operator.eq, xs, ys)) is the pairwise comparison too
+    mapped = any(isinstance(n, ast.Call) and call_name(n) == "map" and len(n.args) == 3 and (dotted(n.args[0]) or "").split(".")[-1] == "eq" for n in ast.walk(eq.node))
+    unordered = unordered or any(isinstance(x, ast.Call) and call_name(x) in ("set", "frozenset", "sorted") for x in ast.walk(eq.node)) or \
+        any(isinstance(x, (ast.Set, ast.SetComp)) for x in ast.walk(eq.node))
+    good = has_len and ((zips and pairwise) or mapped) and not unordered
+    key_ = "tdms_segment.ObjectListKey.__eq__::ordered comparison"
+    if good:
+        R.ok(key_, eq.where(), "keys are equal only for lists of equal length with pairwise equal paths in the same order")
+    elif unordered:
+        R.violation(key_, eq.where(), "cache key equality goes through an order-insensitive container (set / frozenset / sorted): segments with the same objects in a "
+                    "different order would share one path->position index")
+    elif (zips and not pairwise) or (zips and not has_len):
+        R.violation(key_, eq.where(), "cache key equality does not compare the object paths pairwise in list order (length check=%s, zip=%s, path==path=%s): "
+                    "segments with different object lists would share one path->position index" % (bool(has_len), bool(zips), pairwise))
+    else:
+        R.undecided(key_, eq.where(), "how the two object lists are compared was not recognised")
     # get_index builds the index by enumerate over the list it was given
     gi = prog.func("tdms_segment.SegmentIndexCache.get_index")
-    enum = any(isinstance(n, ast.Call) and call_name(n) == "enumerate" and n.args and dotted(n.args[0]) == gi.params[1]
-               for n in ast.walk(gi.node))
-    R.check(enum, "tdms_segment.SegmentIndexCache.get_index::positions", gi.where(), "index = position in the given list",
-            "index is not built by enumerating the given object list")
+    enums = [n for n in ast.walk(gi.node) if isinstance(n, ast.Call) and call_name(n) == "enumerate" and n.args]
+    direct = any(dotted(n.args[0]) == gi.params[1] for n in enums)
+    wrapped = any(isinstance(n.args[0], ast.Call) and call_name(n.args[0]) in ("map", "iter", "list", "tuple") and
+                  any(dotted(a) == gi.params[1] for a in n.args[0].args) for n in enums)
+    reorder = any(isinstance(n, ast.Call) and call_name(n) in ("sorted", "set", "frozenset", "reversed") for n in ast.walk(gi.node))
+    key_ = "tdms_segment.SegmentIndexCache.get_index::positions"
+    if reorder:
+        R.violation(key_, gi.where(), "the index is built from a reordered / de-duplicated view of the object list: positions no longer match the list")
+    elif direct or wrapped:
+        R.ok(key_, gi.where(), "index = position in the given list")
+    else:
+        R.undecided(key_, gi.where(), "how positions are assigned was not recognised (no enumerate over the given list)")
 
 
 # ---------------------------------------------------------------------------
@@ -682,14 +700,26 @@ def ow3(ctx, R):
     smod = prog.module("scaling")
     summaries = Summaries(prog, modules={"scaling", "thermocouples"})
     scale_funcs = []
+    n_scaling_classes = 0
     for ci in prog.classes.values():
         if ci.module is not smod:
             continue
+        has = False
         for name in ("scale", "scale_daqmx"):
-            if name in ci.methods:
-                scale_funcs.append(ci.methods[name])
-    if len(scale_funcs) < 12:
-        raise AnchorMissing("scale methods in nptdms.scaling (found %d)" % len(scale_funcs))
+            found = prog.lookup(ci, name)          # own or inherited (template method in a base class)
+            if found and found[0] == "method":
+                has = True
+                if found[2] not in scale_funcs:
+                    scale_funcs.append(found[2])
+                # the hooks a template method calls on self are part of the scaling too
+                for c_ in walk_body(found[2].node):
+                    if isinstance(c_, ast.Call) and isinstance(c_.func, ast.Attribute) and dotted(c_.func.value) == "self":
+                        h = prog.lookup(ci, c_.func.attr)
+                        if h and h[0] == "method" and h[2] not in scale_funcs and h[2].module is smod:
+                            scale_funcs.append(h[2])
+        n_scaling_classes += 1 if has else 0
+    if n_scaling_classes < 12:
+        raise AnchorMissing("classes with a scale method in nptdms.scaling (found %d)" % n_scaling_classes)
     n_inplace = 0
     for fi in sorted(scale_funcs, key=lambda f: f.qual):
         protected = {p for p in fi.params if p != "self"}
